@@ -10,9 +10,12 @@
 package c05
 
 import (
+	"crypto/sha256"
+
 	"bytes"
 	"encoding/json"
 	"fmt"
+	"github.com/Oneledger/protocol/data/keys"
 	"math/big"
 
 	ethcmn "github.com/ethereum/go-ethereum/common"
@@ -55,6 +58,7 @@ type Case struct {
 	// OLVM only: the original spends the sender's whole balance (it ends at exactly zero); Refund, a native
 	// SEND to the sender, is delivered to subject and twin in the block after the execution: the account
 	// nonce is then the only thing between the old transaction and a second execution
+	Ledger bool   `json:"ledger_signed,omitempty"` // the original is signed in the hardware-wallet (pre-hash) form
 	Drain  bool   `json:"olvm_drain,omitempty"`
 	Refund []byte `json:"refund_tx,omitempty"`
 }
@@ -245,7 +249,7 @@ func sameSignedContent(a, b *action.SignedTx) bool {
 	for i := range a.Signatures {
 		x, y := a.Signatures[i], b.Signatures[i]
 		// the signature bytes are the original's; the key entry may be the same key in another container
-		if !bytes.Equal(x.Signed, y.Signed) || !bytes.HasSuffix(y.Signer.Data, x.Signer.Data) {
+		if !bytes.HasPrefix(y.Signed, x.Signed) || !bytes.HasSuffix(y.Signer.Data, x.Signer.Data) {
 			return false
 		}
 	}
@@ -255,7 +259,7 @@ func sameSignedContent(a, b *action.SignedTx) bool {
 // sigListOps: the signature list is not covered by any signature. These operators keep the signed part
 // and every original entry and append entries; the result is serialised canonically (SignedBytes).
 var sigListOps = []string{"siglist-append-copy-of-first", "siglist-append-junk", "siglist-append-foreign-valid", "siglist-append-empty-entry",
-	"siglist-key-amino-prefixed", "siglist-key-prefixed-5-bytes"}
+	"siglist-key-amino-prefixed", "siglist-key-prefixed-5-bytes", "siglist-signature-trailing-byte", "siglist-signature-trailing-64-bytes"}
 
 func sigListReencode(orig []byte, op string, foreign *sim.User) []byte {
 	tx, err := decode(orig)
@@ -285,6 +289,11 @@ func sigListReencode(orig []byte, op string, foreign *sim.User) []byte {
 		tx.Signatures[0].Signer.Data = append(pre, tx.Signatures[0].Signer.Data...)
 	case "siglist-key-prefixed-5-bytes":
 		tx.Signatures[0].Signer.Data = append([]byte{9, 8, 7, 6, 5}, tx.Signatures[0].Signer.Data...)
+	case "siglist-signature-trailing-byte":
+		// the signature VALUE is not signed either: bytes behind it
+		tx.Signatures[0].Signed = append(append([]byte{}, tx.Signatures[0].Signed...), 0x90)
+	case "siglist-signature-trailing-64-bytes":
+		tx.Signatures[0].Signed = append(append([]byte{}, tx.Signatures[0].Signed...), make([]byte, 64)...)
 	}
 	return tx.SignedBytes()
 }
@@ -307,6 +316,9 @@ func runOn(w *hist.World, c *Case) (*caseRes, *violation) {
 	}
 	if c.Gapn > 0 {
 		res.kind += "+nonce-gap"
+	}
+	if c.Ledger {
+		res.kind += "+ledger-signed"
 	}
 	minCase := func(e *Enc) *Case {
 		m := *c
@@ -567,6 +579,16 @@ func TestC05(t *testing.T) {
 					c.Drain = true
 					c.Refund = txgen.Send(f.B, f.B.Addr, f.E.OLAddr(), txgen.Amt("OLT", refund), w.Fee, "c05-refund").Bytes
 				}
+			}
+		}
+		if c.Kind != "OLVM" && u.N(4, "ledger") == 0 {
+			// the hardware-wallet form: the signer's ed25519 key signs the SHA-256 of the raw transaction, the
+			// signature value carries the hash tag in front
+			if stx, derr := decode(tx.Bytes); derr == nil && len(stx.Signatures) == 1 && stx.Signatures[0].Signer.KeyType == keys.ED25519 && bytes.Equal(stx.Signatures[0].Signer.Data, f.A.Pub.Data) {
+				d := sha256.Sum256(stx.RawBytes())
+				stx.Signatures[0].Signed = append([]byte("SHA256"), f.A.Sign(d[:])...)
+				tx.Bytes = stx.SignedBytes()
+				c.Ledger = true
 			}
 		}
 		c.Orig = tx.Bytes
